@@ -114,6 +114,16 @@ def t_sslowstate(*a, **k):
     return x
 
 
+def t_slinger(*a, **k):
+    """assigns the state, leaves a non-daemon thread behind (the process outlives its final report by ~2.5 s), returns"""
+    import threading
+    x = 7
+    CURRENT.user_state = 11
+    CURRENT.user_state = 12
+    threading.Thread(target=time.sleep, args=(a[0] if a else 2.5,), daemon=False).start()
+    return x
+
+
 def t_sbase(*a, **k):
     x = 7
     CURRENT.user_state = 11
